@@ -131,6 +131,73 @@ fn run_hs_h_zd<T: Cls<1>>(l: usize, m: u64, f: &str) -> String { run_hs::<Zd<0>,
 fn run_hs_h_unit<T: Cls<1>>(l: usize, m: u64, f: &str) -> String { run_hs::<(), T>(l, m, f) }
 fn run_hs_h_b3<T: Cls<1>>(l: usize, m: u64, f: &str) -> String { run_hs::<[u8; 3], T>(l, m, f) }
 
+// ------------------------------------------------------------------------------------------------
+// dp <path> <which>: the LAST handle to a value is released while a payload destructor panics
+// (which = none | hdr | el).  The block must still be returned to the allocator exactly once, with the
+// layout it was requested with (`Box`'s drop glue frees the allocation during unwinding).
+thread_local! { static PANIC_ROLE: Cell<i8> = const { Cell::new(-1) }; }
+struct Pd<const ROLE: u8>(u32, u64);
+impl<const ROLE: u8> Drop for Pd<ROLE> {
+    fn drop(&mut self) {
+        bump::<ROLE>();
+        if PANIC_ROLE.with(|c| c.get()) == ROLE as i8 { PANIC_ROLE.with(|c| c.set(-1)); panic!("scripted destructor panic"); }
+    }
+}
+trait Dy { fn v(&self) -> u32; }
+impl<const ROLE: u8> Dy for Pd<ROLE> { fn v(&self) -> u32 { self.0 } }
+
+fn run_dp(path: &str, which: &str) -> String {
+    use harness::{set_recording, take_events, Ev};
+    reset();
+    type H = Pd<0>;
+    type E = Pd<1>;
+    take_events();
+    set_recording(true);
+    // build the handle (recorded: the Arc block is the only allocation with align >= 8 made here)
+    enum Hd { A(Arc<E>), O(OffsetArc<E>), U1(ArcUnion<E, H>), U2(ArcUnion<H, E>), Q(UniqueArc<E>), D(Arc<dyn Dy>),
+              HS(Arc<HeaderSlice<H, [E]>>), SL(Arc<[E]>), TH(ThinArc<H, E>), R(*const E) }
+    let mk_vec = || vec![Pd::<1>(1, 1), Pd::<1>(2, 2), Pd::<1>(3, 3)];
+    let h = match path {
+        "arc" => Hd::A(Arc::new(Pd(1, 1))),
+        "clone_last" => { let a = Arc::new(Pd(1, 1)); let b = a.clone(); drop(a); Hd::A(b) }
+        "raw" => Hd::R(Arc::into_raw(Arc::new(Pd(1, 1)))),
+        "unique" => Hd::Q(UniqueArc::new(Pd(1, 1))),
+        "offset" => Hd::O(Arc::into_raw_offset(Arc::new(Pd(1, 1)))),
+        "union1" => Hd::U1(ArcUnion::from_first(Arc::new(Pd(1, 1)))),
+        "union2" => Hd::U2(ArcUnion::from_second(Arc::new(Pd(1, 1)))),
+        "dyn" => { let p = Arc::into_raw(Arc::new(Pd::<1>(1, 1))); let d: *const dyn Dy = p; Hd::D(unsafe { Arc::from_raw(d) }) }
+        "hs" => Hd::HS(Arc::from_header_and_vec(Pd(9, 9), mk_vec())),
+        "slice" => Hd::SL(Arc::from(mk_vec())),
+        "thin" => Hd::TH(ThinArc::from_header_and_iter(Pd(9, 9), mk_vec().into_iter())),
+        _ => return "st=badpath".to_string(),
+    };
+    PANIC_ROLE.with(|c| c.set(match which { "hdr" => 0, "el" => 1, _ => -1 }));
+    let r = catch_unwind(AssertUnwindSafe(move || match h {
+        Hd::R(p) => drop(unsafe { Arc::from_raw(p) }),
+        Hd::A(x) => drop(x), Hd::O(x) => drop(x), Hd::U1(x) => drop(x), Hd::U2(x) => drop(x), Hd::Q(x) => drop(x),
+        Hd::D(x) => drop(x), Hd::HS(x) => drop(x), Hd::SL(x) => drop(x), Hd::TH(x) => drop(x),
+    }));
+    PANIC_ROLE.with(|c| c.set(-1));
+    set_recording(false);
+    let evs = take_events();
+    let mut blocks: Vec<(usize, usize, usize, i32, bool)> = Vec::new(); // rec, size, align, frees, layout ok
+    for e in &evs {
+        match e {
+            Ev::Alloc(i, sz, al) if *al >= 8 => blocks.push((*i, *sz, *al, 0, true)),
+            Ev::Dealloc(i, sz, al) => { for b in blocks.iter_mut() { if b.0 == *i { b.3 += 1; if (b.1, b.2) != (*sz, *al) { b.4 = false; } } } }
+            Ev::DoubleFree(i, _, _) => { for b in blocks.iter_mut() { if b.0 == *i { b.3 += 1; } } }
+            _ => {}
+        }
+    }
+    // the Arc block is the LAST surviving align>=8 allocation made before the release; source Vecs of
+    // Pd<1> (align 8) are freed by the constructor, so they show up as freed-once blocks too: fine
+    let never = blocks.iter().filter(|b| b.3 == 0).count();
+    let twice = blocks.iter().filter(|b| b.3 > 1).count();
+    let badlay = blocks.iter().filter(|b| !b.4).count();
+    format!("st={} blocks={} never_freed={} freed_twice={} wrong_layout={} hdrop={} edrop={}", if r.is_ok() { "ok" } else { "panic" },
+            blocks.len(), never, twice, badlay, hd(), ed())
+}
+
 fn main() {
     harness::quiet_panics();
     let stdin = std::io::stdin();
@@ -145,6 +212,7 @@ fn main() {
             "hs" if f.len() == 6 => with_ht!(f[1], f[2], p(3), p(4) as u64, f[5]),
             "sl" if f.len() == 5 => with_t!(f[1], run_sl, p(2), p(3) == 1, p(4)),
             "un" if f.len() == 3 => with_t!(f[1], run_un, p(2) == 1),
+            "dp" if f.len() == 3 => run_dp(f[1], f[2]),
             _ => "st=badline".to_string(),
         };
         writeln!(out, "{}", r).unwrap();
